@@ -59,7 +59,7 @@ func (x *Exec) doCall(fr *Frame, call *ssa.CallCommon, site ssa.Value, pos token
 	}
 	// dynamic call through a function value: uniform contract of its named type
 	x.safety("nil-deref", "funcvalue", not(eq(fv.Id, tZero)), "function value != nil")
-	if nt, ok := call.Value.Type().(*types.Named); ok {
+	if nt, ok := call.Value.Type().(*types.Named); ok && nt.Obj().Pkg() != nil {
 		key := nt.Obj().Pkg().Path() + "::" + nt.Obj().Name()
 		if c := x.eng.specs.FTypes[key]; c != nil {
 			return x.applyContract(c, nil, call.Signature(), args, fv.Id, "call-pre", nt.Obj().Name())
@@ -77,7 +77,7 @@ func (x *Exec) callIface(iv *IfaceV, call *ssa.CallCommon, args []Val) Val {
 	if c := x.eng.specs.Externs[full]; c != nil {
 		return x.applyContract(c, nil, call.Signature(), append([]Val{iv}, args...), nil, "extern-pre", name)
 	}
-	if nt, ok := recvT.(*types.Named); ok {
+	if nt, ok := recvT.(*types.Named); ok && nt.Obj().Pkg() != nil {
 		key := nt.Obj().Pkg().Path() + "::" + nt.Obj().Name() + "." + call.Method.Name()
 		if c := x.eng.specs.Ifaces[key]; c != nil {
 			return x.applyContract(c, nil, call.Signature(), append([]Val{iv}, args...), nil, "call-pre", name)
